@@ -222,8 +222,11 @@ impl MqttShared {
         payload: Option<Bytes>,
     ) -> Result<(), EncodeError> {
         self.check_streaming()?;
-        self.enable_streaming(&pkt, payload.as_ref());
-        self.io.encode(Encoded::Publish(pkt, payload), &self.codec)
+        // streaming starts only if the header has been written
+        let remaining = Self::streaming_size(&pkt, payload.as_ref());
+        self.io.encode(Encoded::Publish(pkt, payload), &self.codec)?;
+        self.streaming_remaining.set(remaining);
+        Ok(())
     }
 
     pub(super) fn encode_publish_payload(&self, payload: Bytes) -> Result<bool, EncodeError> {
@@ -314,9 +317,10 @@ impl MqttShared {
         }
     }
 
-    fn enable_streaming(&self, pkt: &Publish, payload: Option<&Bytes>) {
+    /// Payload bytes that are still owed once the publish header is written
+    fn streaming_size(pkt: &Publish, payload: Option<&Bytes>) -> Option<num::NonZeroU32> {
         let len = payload.map_or(0, Bytes::len);
-        self.streaming_remaining.set(num::NonZeroU32::new(pkt.payload_size - len as u32));
+        num::NonZeroU32::new(pkt.payload_size - len as u32)
     }
 
     pub(super) fn pkt_ack(&self, ack: Ack) -> Result<(), ProtocolError> {
@@ -467,7 +471,7 @@ impl MqttShared {
         payload: Option<Bytes>,
     ) -> Result<pool::Receiver<Ack>, SendPacketError> {
         self.check_streaming()?;
-        self.enable_streaming(&pkt, payload.as_ref());
+        let remaining = Self::streaming_size(&pkt, payload.as_ref());
 
         let mut queues = self.queues.borrow_mut();
         if queues.inflight_ids.contains(&id) {
@@ -475,6 +479,7 @@ impl MqttShared {
         } else {
             match self.io.encode(Encoded::Publish(pkt, payload), &self.codec) {
                 Ok(()) => {
+                    self.streaming_remaining.set(remaining);
                     let (tx, rx) = self.pool.queue.channel();
                     queues.inflight.push_back((id, Some(tx), ack));
                     queues.inflight_ids.insert(id);
@@ -494,7 +499,7 @@ impl MqttShared {
         payload: Option<Bytes>,
     ) -> Result<(), SendPacketError> {
         self.check_streaming()?;
-        self.enable_streaming(&pkt, payload.as_ref());
+        let remaining = Self::streaming_size(&pkt, payload.as_ref());
 
         let mut queues = self.queues.borrow_mut();
         if queues.inflight_ids.contains(&id) {
@@ -502,6 +507,7 @@ impl MqttShared {
         } else {
             match self.io.encode(Encoded::Publish(pkt, payload), &self.codec) {
                 Ok(()) => {
+                    self.streaming_remaining.set(remaining);
                     assert!(
                         self.flags.get().contains(Flags::ON_PUBLISH_ACK),
                         "Publish ack callback is not set"
